@@ -257,13 +257,16 @@ impl Matcher {
     fn preprocess(&self, mut transactions: Vec<GbpTransaction>) -> Vec<GbpTransaction> {
         // A SPLIT/UNSPLIT takes effect at the start of its day, wherever its line stands in the
         // input: the day's trades are in post-split units (docs/spec.md, "Split then same-day
-        // sell"). The sort is stable, so other lines of a day keep their input order.
+        // sell"). A cash DIVIDEND takes no part in matching: it goes after the day's other lines,
+        // so that it cannot stand between two sales that would otherwise be adjacent (and merged).
+        // The sort is stable, so other lines of a day keep their input order.
         transactions.sort_by_key(|tx| {
-            let is_trade_or_event = !matches!(
-                tx.operation,
-                Operation::Split { .. } | Operation::Unsplit { .. }
-            );
-            (tx.date, is_trade_or_event)
+            let rank = match tx.operation {
+                Operation::Split { .. } | Operation::Unsplit { .. } => 0u8,
+                Operation::Dividend { .. } => 2,
+                _ => 1,
+            };
+            (tx.date, rank)
         });
 
         let mut merged = Vec::new();
